@@ -18,9 +18,9 @@ func init() {
 			"distinct_nontrivial counts distinct (row-count vector, set of all-default columns, one-sided pattern, inheritance pattern) signatures",
 		Cases: func(tier string) int {
 			if tier == "thorough" {
-				return 3000
+				return 6000
 			}
-			return 240
+			return 480
 		},
 		Run: runC10,
 		Assumptions: []string{
